@@ -500,7 +500,19 @@ func genNearValid(g G, me string) string {
 }
 
 func genProbe(g G, me string) string {
-	switch g.W(4, 4, 3, 2, 2, 5) {
+	switch g.W(4, 4, 3, 2, 2, 5, 1) {
+	case 6:
+		// very long lines: around the read buffer's 4096 bytes, around IRCv3's
+		// 8191-byte tag section, and far beyond, well-formed or not
+		n := []int{4000, 4093, 4094, 4095, 4096, 4097, 4100, 8190, 8704, 9000, 20000}[g.Intn(11)]
+		switch g.Intn(3) {
+		case 0:
+			return ":u!i@h PRIVMSG " + me + " :" + strings.Repeat("L", n-20)
+		case 1:
+			return "@t=" + strings.Repeat("v", n-40) + " :u!i@h NOTICE " + me + " :x"
+		default:
+			return strings.Repeat([]string{"x", " ", ":", "@"}[g.Intn(4)], n)
+		}
 	case 5:
 		return genNearValid(g, me)
 	case 0:
